@@ -568,6 +568,30 @@ func (g *hayGen) perLiteral() [][]byte {
 	return out
 }
 
+// overlapHays: for every literal of the pattern that can overlap itself (l[len-k:] == l[:k]),
+// haystacks in which a first occurrence is immediately followed by an overlapping one, after a
+// separator that cannot be consumed by a word/letter class: "-anana", " aaa", "\nababab x".
+func (g *hayGen) overlapHays() [][]byte {
+	var out [][]byte
+	for i, l := range g.lits {
+		if i >= 6 {
+			break
+		}
+		for k := 1; k < len(l); k++ {
+			if string(l[len(l)-k:]) != string(l[:k]) {
+				continue
+			}
+			ov := append(append([]byte{}, l...), l[k:]...)
+			for _, sep := range []string{"-", " ", "\n", "x-"} {
+				out = append(out, append([]byte(sep), ov...))
+				out = append(out, append(append([]byte(sep), ov...), []byte(", then b"+string(l))...))
+			}
+			break
+		}
+	}
+	return out
+}
+
 func repeatNoise(g *hayGen, n int) []byte {
 	var out []byte
 	for len(out) < n {
